@@ -442,6 +442,9 @@ impl RefVm {
             OpCode::Loop(i, n) => {
                 if i == 0 {
                     self.pc += n as usize;
+                } else if n == 0 {
+                    // a loop whose body is empty: running nothing i times is nothing, and no loop is open afterwards.  (Until
+                    // session 4 the reference followed the executor here, which left a stale loop frame behind: DESIGN §7-AH.)
                 } else {
                     let end_plus_one = self.pc + n as usize;
                     if let Some(outer) = self.loops.last() {
@@ -543,7 +546,8 @@ pub fn rv_tx(tx: &Transaction) -> RV {
 pub struct RefEnv {
     pub parent_coinid: CoinID,
     pub parent_cdh: CoinDataHeight,
-    pub spender_index: u8,
+    /// the position among the inputs as it is (not cut to the 8 bits melvm's CovenantEnv holds)
+    pub spender_index: u64,
     pub last_header: Header,
 }
 
